@@ -17,24 +17,42 @@ Definition run_history (h : list hstep) (st : store) : store := fold_left do_hst
 Definition history_targets (h : list hstep) : list target :=
   flat_map (fun s => match s with HBuild _ r _ => r_targets r | HWipe => [] end) h.
 
-(* no target of the request uses tools: the Trust invariant of C01 / C02 is proved without them (the no-op and
-   cut-off theorems of C03 cover tools) *)
-Definition tool_free (r : repo) : bool :=
-  forallb (fun t => forallb (fun x => match x with STool _ => false | _ => true end) (t_srcs t)) (r_targets r).
+(* no source of a target is the anonymous path under which the outputs of tools enter the source key (Engine.nopath: the
+   output "" of a target of the root package; such an output cannot exist) *)
+Definition named_srcs (r : repo) : bool :=
+  forallb (fun t => forallb (fun p => negb (path_eqb p nopath)) (all_paths r t)) (r_targets r).
 
 (* every build is of a well-formed request: see wf_repo / distinct_srcs in Model/Engine.v *)
 Definition step_wf (s : hstep) : bool :=
   match s with
-  | HBuild _ r req => wf_repo (restrict r req) && distinct_srcs (restrict r req)
+  | HBuild _ r req => wf_repo (restrict r req) && distinct_srcs (restrict r req) && named_srcs (restrict r req)
   | HWipe => true
   end.
-(* no build of the history is of a request with tools (hypothesis of the partial theorems of C01 / C02; the statements
-   themselves are about all well-formed histories, tools included) *)
-Definition step_tool_free (s : hstep) : bool :=
-  match s with HBuild _ r req => tool_free (restrict r req) | HWipe => true end.
-Definition tool_free_history (h : list hstep) : bool := forallb step_tool_free h.
-Definition step_wf_t (s : hstep) : bool := step_wf s && step_tool_free s.
 
+(* ------------------------------------------------------------------------------------------ *)
+(* tools.  The source key of a target carries, for every output of every tool, the path-hash stream and NO path
+   (Engine.anon_ins).  A command that reads only the CONTENT of its tools (UseTool, UseNTool) or does not mention $TOOLS at
+   all is a function of what the key names; the command ToolNames writes the NAMES of the tool outputs, which the key does
+   not name.  tool_blind: the result of the command does not depend on the names of the tool outputs. *)
+Definition tool_blind (t : target) : bool :=
+  match t_kind t with Genrule ToolNames => false | _ => true end.
+
+(* the turn of a target that is not tool_blind: its rule key, the source key computed at its turn and the paths of the outputs
+   of its tools at that moment *)
+Definition turn := (str * skey * list path)%type.
+Definition turn_of (r : repo) (rn : run) (t : target) : list turn :=
+  if tool_blind t || blocked r rn t then []
+  else match source_key r (rn_st rn) t with
+       | Some sk => [(t_defkey t, sk, tool_paths r t)]
+       | None => []
+       end.
+Fixpoint turns_in (c : bool) (r : repo) (ts : list target) (rn : run) : list turn :=
+  match ts with
+  | [] => []
+  | t :: rest => turn_of r rn t ++ turns_in c r rest (build_one c r rn t)
+  end.
+Definition plz_turns (c : bool) (r : repo) (req : list str) (st : store) : list turn :=
+  turns_in c (restrict r req) (r_targets (restrict r req)) (mkRun st [] []).
 (* the trees the filegroups of the history link: files, or whole source directories *)
 Definition fg_srcs_of (s : hstep) : list node :=
   match s with
@@ -61,6 +79,23 @@ Fixpoint quiet_history (h : list hstep) (st : store) : bool :=
       (match s with HBuild c r req => negb (plz_stale c r req st) | HWipe => true end)
       && quiet_history rest (do_hstep st s)
   end.
+(* the turns of a whole history *)
+Fixpoint history_turns (h : list hstep) (st : store) : list turn :=
+  match h with
+  | [] => []
+  | s :: rest =>
+      (match s with HBuild c r req => plz_turns c r req st | HWipe => [] end) ++ history_turns rest (do_hstep st s)
+  end.
+(* two turns of the same definition under the same source key with DIFFERENT tool output paths: between them an output of a
+   tool was renamed (or tool outputs were permuted) with identical content, and the command reads the names *)
+Definition turn_clash (x y : turn) : bool :=
+  str_eqb (fst (fst x)) (fst (fst y)) && skey_eqb (snd (fst x)) (snd (fst y)) && negb (list_eqb path_eqb (snd x) (snd y)).
+Definition clash_free (l : list turn) : bool := forallb (fun x => forallb (fun y => negb (turn_clash x y)) l) l.
+(* THE classifier of the known defect class tool-output-renamed-same-content-user-not-rebuilt: no two turns of the history
+   clash.  Histories in which tool outputs change content, appear, disappear or are renamed with other content pass: the
+   source key differs.  Executable: evaluated along the model's run like quiet_history. *)
+Definition tool_rename_free (h : list hstep) : bool := clash_free (history_turns h empty_store).
+
 (* the cache of targets with output_dirs is not modelled: the cache theorems (C02) exclude them *)
 Definition od_free (h : list hstep) : Prop := forall t, In t (history_targets h) -> could_modify t = false.
 
